@@ -48,7 +48,38 @@ func LoadKnown(path string) {
 
 // signatures: predicates over a failing run that identify the cause of an
 // open finding. A violation that matches no open signature is reported.
-var signatures = map[string]func(hi *Hist, v *Violation) bool{}
+var signatures = map[string]func(hi *Hist, v *Violation) bool{
+	// F4b: a bar created with BarQueueAfter(p) after p's finishing operation had
+	// returned is registered behind a predecessor whose hand-over frame may
+	// already be past: it is never promoted, never rendered, never shut down.
+	"late_successor": func(hi *Hist, v *Violation) bool {
+		switch v.Oracle {
+		case "wait-hang", "wait-deadlock", "never-displayed", "hang", "deadlock", "leak", "leak-spinning":
+		default:
+			return false
+		}
+		facts := Facts(hi)
+		for _, bf := range facts {
+			if !bf.Queued {
+				continue
+			}
+			pred := facts[bf.Pred]
+			if pred.TermAt >= 0 && bf.AddInv > pred.TermAt {
+				// and that successor is indeed the one that was never shown
+				shown := false
+				for _, f := range ParseFrames(hi) {
+					if f.Has(bf.Idx) {
+						shown = true
+					}
+				}
+				if !shown {
+					return true
+				}
+			}
+		}
+		return false
+	},
+}
 
 // MatchKnown returns the id of the open known finding whose signature matches
 // the failing run, or "".
